@@ -117,6 +117,11 @@ def run_runner(binary, case_text, workdir, args, timeout=600):
             v = res.get("violation")
             if v and "pc 0x" in v.get("detail", ""):
                 v["detail"] = resolve_pcs(binary, v["detail"])
+            tol = res.get("tolerated_freed_reads") or {}
+            # reads let through inside a known-finding bracket: one pseudo violation per distinct site, judged by the caller
+            tol["sites"] = [{"kind": "use_after_reclaim", "detail": resolve_pcs(binary, "read of 8 bytes (let through inside a known-finding bracket), pc %s" % pc)}
+                            for pc in tol.get("pcs", [])]
+            res["tolerated_freed_reads"] = tol
             return res
     raise RuntimeError("runner produced no result: rc=%s stdout=%r stderr=%r" % (p.returncode, p.stdout[-500:], p.stderr[-500:]))
 
